@@ -12,7 +12,7 @@ pub const K: u32 = 6;
 pub fn d_exact_k(p: &pm::PoolInfo) -> Option<BigInt> {
     if let pm::PoolType::StableSwap { amp } = p.pool_type {
         let maxd = *p.asset_decimals.iter().max().unwrap() as u32;
-        let xs: Vec<BigInt> = p.assets.iter().zip(&p.asset_decimals).map(|(c, d)| scale(c.amount.u128(), *d as u32, maxd, K)).collect();
+        let xs: Vec<BigInt> = p.assets.iter().map(|c| scale(c.amount.u128(), dec_of(p, &c.denom), maxd, K)).collect();
         Some(exact_d_floor(&xs, &(BigInt::from(amp) * BigInt::from(p.assets.len() as u64))))
     } else {
         None
@@ -272,8 +272,38 @@ pub fn grid_cases(tier: Tier) -> Vec<PuCase> {
                             funds0.iter().map(|(d, _)| (d.clone(), 1)).collect(),
                             funds0.iter().enumerate().map(|(i, (d, r))| (d.clone(), if i == 0 { 3 * (r / 10 + 1) } else { r / 10 + 1 })).collect(),
                         ];
-                        for sh in shapes {
-                            v.push(PuCase { setup: setup.clone(), op: prov(A, sh) });
+                        for sh in &shapes {
+                            v.push(PuCase { setup: setup.clone(), op: prov(A, sh.clone()) });
+                        }
+                        // the same pool created with its denoms in reverse (non-alphabetical) order, after a dust deposit carrying
+                        // the deposit tolerance 1 (the only one a stableswap pool accepts): later deposits must be priced the same
+                        if skew != 1000 && (*amp == 100 || *amp == 1) {
+                            let rdn: Vec<&str> = dn.iter().rev().cloned().collect();
+                            let rdec: Vec<u8> = decs.iter().rev().cloned().collect();
+                            let dust = PuOp::Provide { u: B, pool: "o.g".into(), funds: funds0.iter().map(|(d, _)| (d.clone(), 1u128)).collect(), lock: None, lock_id: None, recv: None, liq_slip: Some(10_000), swap_slip: None };
+                            let setup_r = vec![mkpool(f, &rdn, &rdec, Some(*amp)), prov(OWNER, funds0.clone()), dust];
+                            let mut more = shapes.clone();
+                            // strongly one-sided: a tenth of one reserve next to one unit of every other asset
+                            for k in [0usize, nn - 1] {
+                                more.push(funds0.iter().enumerate().map(|(i, (d, r))| (d.clone(), if i == k { r / 10 + 1 } else { 1 })).collect());
+                            }
+                            // amounts that would look balanced if the two assets' decimals were swapped: 10^(difference of decimals)
+                            // units of the lower-decimals asset next to one unit of the higher-decimals one
+                            if nn == 2 && decs[0] != decs[1] {
+                                let (lo, hi) = if decs[0] < decs[1] { (0, 1) } else { (1, 0) };
+                                let big_units = 10u128.pow((decs[hi] - decs[lo]) as u32);
+                                for mult in [1u128, 5] {
+                                    if big_units * mult <= funds0[lo].1 * 2 {
+                                        let mut sh = vec![(funds0[0].0.clone(), 0u128), (funds0[1].0.clone(), 0u128)];
+                                        sh[lo].1 = big_units * mult;
+                                        sh[hi].1 = mult;
+                                        more.push(sh);
+                                    }
+                                }
+                            }
+                            for sh in more {
+                                v.push(PuCase { setup: setup_r.clone(), op: prov(A, sh) });
+                            }
                         }
                         let mut s2 = setup.clone();
                         s2.push(prov(A, funds0.iter().map(|(d, r)| (d.clone(), r / 2 + 1)).collect()));
